@@ -12,7 +12,7 @@ _P = bgq.PRELUDE
 _P = _P.replace("fn next<E: Entry>(&mut self, entry: &E) -> (r: Result<(), IoStreamError>)",
                 "fn next<VerifI0: Entry>(&mut self, entry: &VerifI0) -> (r: Result<(), IoStreamError>)")
 assert "VerifI0" in _P
-PRELUDE = _P.replace("pub mod io { pub use super::ErrorKind; pub type Error = super::IoError; }", "pub mod io { pub use super::ErrorKind; pub type Error = super::IoError; pub type Result<T> = core::result::Result<T, super::IoError>; }") + r'''
+PRELUDE = _P.replace("pub mod io { pub use std::io::ErrorKind; pub type Error = super::IoError; }", "pub mod io { pub use std::io::ErrorKind; pub type Error = super::IoError; pub type Result<T> = core::result::Result<T, super::IoError>; }") + r'''
 pub mod io2 { }
 impl Instant {
     #[verifier::external_body]
